@@ -273,7 +273,7 @@ var vDispatchPath = regexp.MustCompile(`^(/[A-Za-z0-9_~$&+,;=:@-][A-Za-z0-9._~$&
 // the real route table: whatever the path, the upstream is reached only through the session
 // chain and the Proxy gate; the auth-only, user-info and sign-out endpoints sit behind the
 // session chain and never reach the upstream
-// verif: unwind=24 strlen=12 unblock=github.com/gorilla/mux also=C19 steps=6000000 paths=60000
+// verif: unwind=24 strlen=18 unblock=github.com/gorilla/mux also=C19 steps=6000000 paths=60000 tstrlen=24
 func vh_C01_dispatch() {
 	g := vNewGate()
 	g.prov.data = &providers.ProviderData{}
@@ -307,9 +307,18 @@ func vh_C01_dispatch() {
 		// (unknown paths under the prefix fall through to the Proxy gate like any application path)
 		verifAssert("C01.dispatch.proxy-endpoints-never-reach-upstream", path != "/oauth2/auth" && path != "/oauth2/userinfo" && path != "/oauth2/sign_out" && path != "/oauth2/sign_in" && path != "/robots.txt")
 	}
-	if path == "/oauth2/auth" || path == "/oauth2/userinfo" || path == "/oauth2/sign_out" {
-		verifReach("session-endpoints")
+	switch path {
+	case "/oauth2/auth":
+		verifReach("auth-endpoint")
 		verifAssert("C01.dispatch.endpoint-behind-session-chain", sessionLoads == 1)
+	case "/oauth2/userinfo":
+		verifReach("userinfo-endpoint")
+		verifAssert("C01.dispatch.endpoint-behind-session-chain", sessionLoads == 1)
+	case "/oauth2/sign_out":
+		verifReach("sign-out-endpoint")
+		verifAssert("C01.dispatch.endpoint-behind-session-chain", sessionLoads == 1)
+	case "/oauth2/sign_in":
+		verifReach("sign-in-endpoint")
 	}
 	if g.rw.status == 202 {
 		verifAssert("C01.dispatch.202-only-from-auth-endpoint", path == "/oauth2/auth" && vOr(byp, vAnd(s != nil, g.prov.authorized, vOr(s == nil || s.Email == "", g.validatorOK))))
